@@ -6,7 +6,7 @@
    check runs (vm_compute) on the arrays handed to the Rust function. *)
 From Coq Require Import Reals NArith QArith Lra List.
 From SpdVerif Require Import Model.FinSum Model.Schmidt Proofs.FinSum_lemmas Proofs.RMat Proofs.C11_len Proofs.C11_trace
-  Proofs.C11_families Proofs.C11_svd Proofs.C11_exec.
+  Proofs.C11_families Proofs.C11_svd Proofs.C11_exec Gen.SchmidtSrc Proofs.C11_src.
 Local Open Scope R_scope.
 
 (* the length check accepts exactly the perfect squares (every usize) *)
@@ -26,6 +26,21 @@ Theorem C11_code_path :
     | OkK k => exists d : nat, len = (d * d)%nat /\ k = schmidt_K ROps d (mag_matrix d a)
     end.
 Proof. exact schmidt_number_spec. Qed.
+
+(* the same, for the function translated from src/math/schmidt.rs on this run (Gen/SchmidtSrc.v) *)
+Theorem C11_source_is_model : forall svd len a, src_schmidt_number svd len a = schmidt_number svd len a.
+Proof. exact src_schmidt_number_eq. Qed.
+
+Theorem C11_source_code_path :
+  forall svd : nat -> (nat -> nat -> R) -> option (nat -> R),
+  (forall n M sv, svd n M = Some sv -> is_svd n M sv) ->
+  forall (len : nat) (a : nat -> cx R),
+    match src_schmidt_number svd len a with
+    | ErrNotSquare => forall d : nat, len <> (d * d)%nat
+    | ErrSvd => exists d : nat, len = (d * d)%nat
+    | OkK k => exists d : nat, len = (d * d)%nat /\ k = schmidt_K ROps d (mag_matrix d a)
+    end.
+Proof. exact src_code_path. Qed.
 
 Theorem C11_rejects_nonsquare :
   forall svd : nat -> (nat -> nat -> R) -> option (nat -> R),
@@ -111,6 +126,8 @@ Proof. repeat split; vm_compute; reflexivity. Qed.
 
 Print Assumptions C11_square_check.
 Print Assumptions C11_code_path.
+Print Assumptions C11_source_is_model.
+Print Assumptions C11_source_code_path.
 Print Assumptions C11_rejects_nonsquare.
 Print Assumptions C11_svd_link.
 Print Assumptions C11_bounds.
